@@ -281,6 +281,12 @@ func TestC03(t *testing.T) {
 					rs = append(rs, rapid.SampledFrom(c03Rules).Draw(t, "rule"))
 				}
 			}
+			if rapid.IntRange(0, 7).Draw(t, "apostrophe") == 0 {
+				// the LAST rule of the list demands the value with a message that holds a lone apostrophe (ordinary English);
+				// nothing follows it, so no reading of the quote can hand the rest of the list to another rule
+				rs[len(rs)-1] = rapid.SampledFrom([]string{"required|name can't be empty", "required|it's needed", "required|姓名 can't be empty"}).Draw(t, "apostropheMsg")
+				ev.Class("last-rule-required-with-an-apostrophe-in-its-message")
+			}
 			if ((car == "url" || car == "urlenc") && !st.zero && !urlSafe(st.val.S)) || (car == "url" && st.val.SB != nil) {
 				return
 			}
